@@ -355,6 +355,12 @@ pub fn dgram(rng: &mut Rng, r: &mut Runner, maxops: usize) {
                         if now.buffered > w {
                             r.oracle_fail("key=dgram-recv-window buffered bytes exceed the receive window");
                         }
+                        // C06 "buffers a bounded amount" / C03 "grow memory without bound" (audit SD-9): the
+                        // configuration grants `w` BYTES; a queue with more entries than that (every entry costs
+                        // memory, also an empty datagram) is not bounded by the configuration any more
+                        if now.inc.len() as u64 > w.max(1) {
+                            r.oracle_fail(&format!("key=dgram-incoming-count-unbounded {} datagrams queued for the application with a receive buffer of {w} bytes (zero-length DATAGRAM frames are never evicted)", now.inc.len()));
+                        }
                     }
                 }
                 if now.inc.iter().copied().collect::<VecDeque<D>>() != shadow_in || now.buffered != sum(&now.inc) {
